@@ -545,7 +545,9 @@ def mentioned(a) -> set:
 
 def weight_spec_cases(thorough: bool) -> List[dict]:
     cases = []
-    physicals = [5.0, [1.0, 2.0], [1.0, "inf", 3.0], [[1.0, 2.0, 3.0], [4.0, "-inf", 6.0]], [[1.0], [2.0]], [7.0]]
+    # JSON numbers without a fraction arrive as Python ints: 1, [1, 2, 3], [[1, 0], [0, 1]]
+    physicals = [5.0, [1.0, 2.0], [1.0, "inf", 3.0], [[1.0, 2.0, 3.0], [4.0, "-inf", 6.0]], [[1.0], [2.0]], [7.0],
+                 1, [1, 2, 3], [[1, 0], [0, 1]], [2, 0.5]]
     expands = [None, [], [2], [3, 2]]
     for phys in physicals:
         pshape = nested_shape(phys)
@@ -589,7 +591,8 @@ def weight_spec_cases(thorough: bool) -> List[dict]:
 def to_json_number(spec):
     """The JSON object handed to json_to_weights: 'inf' strings become float infinities (what json.loads gives for Infinity)."""
     s = _copy.deepcopy(spec)
-    s["physical"] = nest_map(num, s["physical"])
+    # JSON integers stay Python ints, as json.loads delivers them
+    s["physical"] = nest_map(lambda x: x if isinstance(x, int) and not isinstance(x, bool) else num(x), s["physical"])
     if "default" in s:
         s["default"] = num(s["default"])
     return s
@@ -607,6 +610,10 @@ def check_weights(case, col: Collector) -> bool:
     except Exception as e:
         col.add("json_to_weights.denotes", f"json_to_weights:raises:{type(e).__name__}:{feat}",
                 f"json_to_weights({json.dumps(spec)}) raised {type(e).__name__}: {e}", case, f"expected a tensor of shape {shape}")
+        return False
+    if d.dtype != torch.get_default_dtype():
+        col.add("json_to_weights.denotes", f"json_to_weights:dtype:{feat}",
+                f"json_to_weights({json.dumps(spec)}): dtype {d.dtype}, expected the default floating-point dtype", case)
         return False
     if tuple(w.shape) != tuple(shape) or not same_dense(d, want):
         col.add("json_to_weights.denotes", f"json_to_weights:wrong-tensor:{feat}",
